@@ -1473,7 +1473,10 @@ func routerDelayRules(c *Ctx, pc, rpush *ssa.Function) {
 				// the queue was found empty on this path
 				empty := false
 				for _, ft := range pt.Conds {
-					if nilFact(ft, func(v ssa.Value) bool { cl, ok := origin(pt.value(v)).(*ssa.Call); return ok && isQueueCall(cl, "peek") }, true) {
+					if nilFact(ft, func(v ssa.Value) bool {
+						cl, ok := origin(pt.value(v)).(*ssa.Call)
+						return ok && isQueueCall(cl, "peek")
+					}, true) {
 						empty = true
 					}
 					if boolFact(ft, func(v ssa.Value) bool {
